@@ -46,3 +46,22 @@ def wit_d8_c07():
 
 SIGNATURES["D8-C07"] = sig_lints
 WITNESSES["D8-C07"] = wit_d8_c07
+
+def sig_tree_ts_binz(info, t):
+    b = _base(t)
+    return bool(b) and (b.get("np") or [None])[0] == "tree" and b.get("lp", [None])[0] == "thompson"
+
+def wit_d6_c14():
+    from mabwiser.mab import MAB, LearningPolicy, NeighborhoodPolicy
+    bz = lambda a, r: 1 if r == 0 else 0
+    X = [[0.0], [1.0], [2.0], [3.0], [0.0], [1.0], [2.0], [3.0]]
+    ds = [1, 1, 1, 1, 2, 2, 2, 2]
+    rs = [0.0, 0.0, 0.0, 1.0, 1.0, 1.0, 0.0, 1.0]
+    a = MAB([1, 2], LearningPolicy.ThompsonSampling(bz), NeighborhoodPolicy.TreeBandit(), seed=3)
+    a.fit(ds, rs, X)
+    b = MAB([1, 2], LearningPolicy.ThompsonSampling(), NeighborhoodPolicy.TreeBandit(), seed=3)
+    b.fit(ds, [float(bz(d, r)) for d, r in zip(ds, rs)], X)
+    return a.predict_expectations([[0.0], [3.0]]) != b.predict_expectations([[0.0], [3.0]])
+
+SIGNATURES["D6-C14"] = sig_tree_ts_binz
+WITNESSES["D6-C14"] = wit_d6_c14
